@@ -19,6 +19,10 @@ import (
 // derives what the predicates must say from the tree alone.
 //
 //	fix big ratio single double long : V = exact decimal / rational text
+//	complex                          : V = "RE IM", two decimals exactly representable as double-floats
+//	octet sbyte ubyte bit            : V = the integer; built by (coerce V 'octet / 'signed-byte / 'unsigned-byte / 'bit)
+//	bitv                             : bit vector, V = the bits as 0/1 text
+//	octs                             : octets vector, V = the ASCII text whose bytes it holds
 //	char str sym key                 : V = the character, text, name
 //	nil t                            : the two constants
 //	list                             : proper list of C (non-empty)
@@ -62,15 +66,20 @@ var objT = Obj{K: "t"}
 // group is the coarse kind used in signatures.
 func group(k string) string {
 	switch k {
-	case "fix", "big", "ratio", "single", "double", "long":
+	case "fix", "big", "ratio", "single", "double", "long", "complex", "octet", "sbyte", "ubyte", "bit":
 		return "num"
 	case "sym", "key", "t":
 		return "sym"
 	case "list", "dot":
 		return "list"
 	}
-	return k // char str nil vec opq
+	return k // char str nil vec opq bitv octs
 }
+
+// vectorish: the groups whose members are vectors of some kind ("Strings and
+// Vectors: equal if each element is equal" leaves open whether vectors of
+// different kinds with equal elements are equal).
+func vectorish(g string) bool { return g == "str" || g == "vec" || g == "bitv" || g == "octs" }
 
 // Src renders the slip source that builds the object.
 func (o Obj) Src() string {
@@ -83,6 +92,20 @@ func (o Obj) Src() string {
 		return o.V + "d0"
 	case "long":
 		return o.V + "L0"
+	case "complex":
+		return "#C(" + o.V + ")"
+	case "octet":
+		return "(coerce " + o.V + " (quote octet))"
+	case "sbyte":
+		return "(coerce " + o.V + " (quote signed-byte))"
+	case "ubyte":
+		return "(coerce " + o.V + " (quote unsigned-byte))"
+	case "bit":
+		return "(coerce " + o.V + " (quote bit))"
+	case "bitv":
+		return "#*" + o.V
+	case "octs":
+		return "(coerce \"" + o.V + "\" (quote octets))"
 	case "char":
 		return `#\` + o.V
 	case "str":
@@ -158,6 +181,7 @@ func (o Obj) Text() string {
 type hv struct {
 	o    Obj
 	q    *big.Rat
+	qi   *big.Rat // imaginary part of a complex, nil for a real
 	id   int
 	kids []*hv
 	obj  slip.Object
@@ -170,12 +194,15 @@ var nextID int
 // exact value of a numeric description.
 func exactValue(o Obj) *big.Rat {
 	switch o.K {
-	case "fix", "big", "ratio":
+	case "fix", "big", "ratio", "octet", "sbyte", "ubyte", "bit":
 		q, ok := new(big.Rat).SetString(o.V)
 		if !ok {
 			panic("bad number " + o.V)
 		}
 		return q
+	case "complex":
+		re, _ := complexParts(o)
+		return re
 	case "single":
 		f, err := strconv.ParseFloat(o.V, 32)
 		if err != nil {
@@ -198,12 +225,57 @@ func exactValue(o Obj) *big.Rat {
 	return nil
 }
 
+// complexParts gives the exact parts of a complex description (the reader
+// makes double-floats of them).
+func complexParts(o Obj) (*big.Rat, *big.Rat) {
+	f := strings.Fields(o.V)
+	if len(f) != 2 {
+		panic("bad complex " + o.V)
+	}
+	var parts [2]*big.Rat
+	for i, t := range f {
+		v, err := strconv.ParseFloat(t, 64)
+		if err != nil {
+			panic(err)
+		}
+		parts[i] = new(big.Rat).SetFloat64(v)
+	}
+	return parts[0], parts[1]
+}
+
+// exactImag is the imaginary part of a numeric description (zero for a real).
+func exactImag(o Obj) *big.Rat {
+	if o.K == "complex" {
+		_, im := complexParts(o)
+		return im
+	}
+	return new(big.Rat)
+}
+
+// sameNumber tells whether two numeric descriptions denote one value.
+func sameNumber(a, b Obj) bool {
+	return exactValue(a).Cmp(exactValue(b)) == 0 && exactImag(a).Cmp(exactImag(b)) == 0
+}
+
+func (h *hv) imag() *big.Rat {
+	if h.qi != nil {
+		return h.qi
+	}
+	return new(big.Rat)
+}
+
+// numEq: the two numbers have the same value.
+func numEq(a, b *hv) bool { return a.q.Cmp(b.q) == 0 && a.imag().Cmp(b.imag()) == 0 }
+
 // describe builds the harness value tree (no slip involved).
 func describe(o Obj) *hv {
 	nextID++
 	h := &hv{o: o, id: nextID}
 	if o.isNum() {
 		h.q = exactValue(o)
+		if o.K == "complex" {
+			h.qi = exactImag(o)
+		}
 	}
 	for _, c := range o.C {
 		h.kids = append(h.kids, describe(c))
@@ -254,6 +326,38 @@ func matches(obj slip.Object, h *hv) bool {
 		}
 		r, _ := (*big.Float)(v).Rat(nil)
 		return r.Cmp(h.q) == 0
+	case "complex":
+		v, ok := obj.(slip.Complex)
+		if !ok || math.IsInf(real(complex128(v)), 0) || math.IsInf(imag(complex128(v)), 0) || math.IsNaN(real(complex128(v))) || math.IsNaN(imag(complex128(v))) {
+			return false
+		}
+		return new(big.Rat).SetFloat64(real(complex128(v))).Cmp(h.q) == 0 && new(big.Rat).SetFloat64(imag(complex128(v))).Cmp(h.imag()) == 0
+	case "octet":
+		v, ok := obj.(slip.Octet)
+		return ok && new(big.Rat).SetInt64(int64(v)).Cmp(h.q) == 0
+	case "bit":
+		v, ok := obj.(slip.Bit)
+		return ok && new(big.Rat).SetInt64(v.Int64()).Cmp(h.q) == 0
+	case "sbyte":
+		v, ok := obj.(*slip.SignedByte)
+		return ok && v != nil && intObjIs(v.AsFixOrBig(), h.q)
+	case "ubyte":
+		v, ok := obj.(*slip.UnsignedByte)
+		return ok && v != nil && intObjIs(v.AsFixOrBig(), h.q)
+	case "bitv":
+		v, ok := obj.(*slip.BitVector)
+		if !ok || v == nil || int(v.Len) != len(h.o.V) {
+			return false
+		}
+		for i := range h.o.V {
+			if v.At(uint(i)) != (h.o.V[i] == '1') {
+				return false
+			}
+		}
+		return true
+	case "octs":
+		v, ok := obj.(slip.Octets)
+		return ok && string(v) == h.o.V
 	case "char":
 		v, ok := obj.(slip.Character)
 		return ok && string(rune(v)) == h.o.V
@@ -355,6 +459,17 @@ func matches(obj slip.Object, h *hv) bool {
 	return false
 }
 
+// intObjIs: the fixnum or bignum o has the value q.
+func intObjIs(o slip.Object, q *big.Rat) bool {
+	switch v := o.(type) {
+	case slip.Fixnum:
+		return new(big.Rat).SetInt64(int64(v)).Cmp(q) == 0
+	case *slip.Bignum:
+		return new(big.Rat).SetInt((*big.Int)(v)).Cmp(q) == 0
+	}
+	return false
+}
+
 // ---- the harness definition of the four predicates ------------------------
 //
 // Written from the FuncDoc texts of eq, eql, equal, equalp (slip is a dialect:
@@ -418,7 +533,7 @@ func wantEq(a, b *hv) tv {
 	case "sym":
 		return b3(a.o.K == b.o.K && strings.EqualFold(a.o.V, b.o.V))
 	case "num":
-		if a.o.K == b.o.K && a.q.Cmp(b.q) == 0 {
+		if a.o.K == b.o.K && numEq(a, b) {
 			return fU // implementation-dependent for numbers of the same type and value
 		}
 		return fF
@@ -446,7 +561,13 @@ func wantEql(a, b *hv) tv {
 	}
 	switch ga {
 	case "num":
-		return b3(a.q.Cmp(b.q) == 0)
+		if (a.o.K == "complex") != (b.o.K == "complex") && numEq(a, b) {
+			// "numbers and have the same value" (eql's FuncDoc) against ANSI's
+			// "of the same type": a complex with a zero imaginary part and the
+			// real of that value is pinned by neither
+			return fU
+		}
+		return b3(numEq(a, b))
 	case "char":
 		return b3(a.o.V == b.o.V)
 	case "str":
@@ -463,9 +584,10 @@ func wantStruct(a, b *hv, p bool) tv {
 		return fT
 	}
 	ga, gb := group(a.o.K), group(b.o.K)
-	if (ga == "str" && gb == "vec") || (ga == "vec" && gb == "str") {
+	if ga != gb && vectorish(ga) && vectorish(gb) {
 		// "Strings and Vectors: equal if each element is equal": whether a
-		// string equals a general vector of its characters is not pinned.
+		// string equals a general vector of its characters (or a bit vector /
+		// octets vector a general vector of its elements) is not pinned.
 		return fU
 	}
 	if ga != gb {
@@ -473,7 +595,7 @@ func wantStruct(a, b *hv, p bool) tv {
 	}
 	switch ga {
 	case "num":
-		return fF // eql already said no
+		return wantEql(a, b) // nil, or unspecified for a complex against a real
 	case "char":
 		if p {
 			return b3(charFoldEq(a.o.V, b.o.V))
@@ -481,6 +603,9 @@ func wantStruct(a, b *hv, p bool) tv {
 		return fF
 	case "str":
 		return b3(foldEq(a.o.V, b.o.V))
+	case "bitv", "octs":
+		// vectors of bits / of integers: equal when the elements are
+		return b3(a.o.V == b.o.V)
 	case "list":
 		if a.o.K != b.o.K || len(a.kids) != len(b.kids) {
 			return fF
